@@ -310,7 +310,24 @@ def golden_engine(pid, tier, seed, exe, workdir, V):
     if 'named done' not in ntxt:
         res['oracle_failures'].append({'line': '! C18 golden/named could not be checked: ' + ntxt[-300:], 'replay': [ntxt[-600:]], 'hist': 'golden-named'})
     res['evaluations'] += 1
-    res['summary'] = 'golden directories: %d (+ named types), ops %d; snake strings compared' % (c['histories'], c['ops'])
+    # names of directory entries: uuidExt + the uuid test of uuidsFromDir vs Model/Layout.v
+    nm = os.path.join(workdir, 'names.txt')
+    _sh([exe, '-names', '-seed', str(seed), '-n', '4000' if tier == 'quick' else '100000', '-out', nm], timeout=600)
+    ntx = open(nm).read() if os.path.exists(nm) else ''
+    if 'names done' not in ntx:
+        res['broken'] = 'names engine did not finish'
+    else:
+        r2 = subprocess.run([drv, '-names', nm], stdout=subprocess.PIPE, stderr=subprocess.STDOUT, text=True, timeout=600)
+        same = 0
+        for l in r2.stdout.splitlines():
+            if l.startswith('same name'):
+                same += 1
+            elif l.strip():
+                res.setdefault('mismatches', []).append({'op': 'names', 'impl': l[:600], 'model': '', 'replay': [l[:1500]], 'golden': True})
+                res['broken'] = 'uuidExt / uuidsFromDir and Model/Layout.v disagree on an entry name: %s' % l[:600]
+        res['evaluations'] += same
+        res['nontrivial'] += same
+    res['summary'] = 'golden directories: %d (+ named types), ops %d; snake strings compared; entry names compared' % (c['histories'], c['ops'])
     return res
 
 
